@@ -47,6 +47,16 @@ def grid(rnd, quick):
                     out.append(dict(id="lc-%d" % k, role="acceptor", cause=c1, phase=phase, inIn=0, inOut=rnd.choice([0, 1]),
                                     buf=rnd.choice([0, 1, 10]), slowCb=False, partial=False, cause2=c2, gapMs=5, errDelayMs=rnd.choice([30, 60])))
                     k += 1
+    # the application's incoming callback blocks until the handler's context ends (hand-off to a bounded queue): the end of the
+    # connection must still reach the handler (accepting side; before logon, nothing is being written)
+    for cause in ("peer_close", "peer_reset", "read_timeout", "local_close", "handler_stop"):
+        for phase in (("prelogon",) if quick else ("prelogon", "handshake")):
+            # (one message inside the callback and nothing queued behind it; and two messages against a queue of none: the second
+            #  one is still being handed to the handler when the connection ends)
+            for inin, buf in (((1, rnd.choice([1, 10])), (2, 0)) if quick else ((1, 1), (1, 10), (2, 0))):
+                out.append(dict(id="lc-%d" % k, role="acceptor", cause=cause, phase=phase, inIn=inin, inOut=0, buf=buf, slowCb=False, partial=False,
+                                cause2="", gapMs=0, errDelayMs=0, blockCb=True))
+                k += 1
     # the application turns the client away inside the new-client callback (before the handler runs), the peer gone already or not
     for cause in ("handler_stop", "local_close"):
         for c2 in ("peer_close", "peer_reset", ""):
